@@ -185,6 +185,25 @@ pub struct LayerRt {
     /// their own: "an exhaustive negation" of C13's first sentence, independent of how wax splits
     /// and partitions the pattern.  A directory one of them matches must be discarded as a tree.
     pub exhaustive_alternatives: Vec<Glob<'static>>,
+    /// every alternative (and every whole member) that reports `Always` on its own — used only
+    /// to *excuse* tree verdicts in `unsound_tree_verdict`
+    pub always_alternatives: Vec<Glob<'static>>,
+}
+
+fn always_alternatives(exprs: &[Expr]) -> Vec<Glob<'static>> {
+    let mut out = Vec::new();
+    for e in exprs {
+        let mut alts = negation_alternatives(e);
+        alts.push(e.clone());
+        for a in alts {
+            if let Ok(g) = Glob::new(&render_text(&a)) {
+                if g.is_exhaustive().is_always() {
+                    out.push(g.into_owned());
+                }
+            }
+        }
+    }
+    out
 }
 
 /// alternatives of a negation expression: an expression that is a single alternation (flags
@@ -244,6 +263,7 @@ pub fn prepare_layers(layers: &[Layer], strict: bool) -> Result<Vec<LayerRt>, Bu
                     exhaustive: ex.and_then(|p| regex::Regex::new(&p).ok()),
                     nonexhaustive: ne.and_then(|p| regex::Regex::new(&p).ok()),
                     exhaustive_alternatives: if strict { exhaustive_alternatives(std::slice::from_ref(e)) } else { Vec::new() },
+                    always_alternatives: always_alternatives(std::slice::from_ref(e)),
                 });
             },
             Layer::NotAny(es) => {
@@ -266,9 +286,10 @@ pub fn prepare_layers(layers: &[Layer], strict: bool) -> Result<Vec<LayerRt>, Bu
                     exhaustive: ex.and_then(|p| regex::Regex::new(&p).ok()),
                     nonexhaustive: ne.and_then(|p| regex::Regex::new(&p).ok()),
                     exhaustive_alternatives: alts,
+                    always_alternatives: always_alternatives(es),
                 });
             },
-            Layer::Table(_) => out.push(LayerRt { layer: l.clone(), exhaustive: None, nonexhaustive: None, exhaustive_alternatives: Vec::new() }),
+            Layer::Table(_) => out.push(LayerRt { layer: l.clone(), exhaustive: None, nonexhaustive: None, exhaustive_alternatives: Vec::new(), always_alternatives: Vec::new() }),
         }
     }
     Ok(out)
@@ -289,6 +310,40 @@ pub fn layer_verdict(l: &LayerRt, rel: &str) -> Verdict {
         },
         Layer::Table(t) => t.iter().find(|(p, _)| p == rel).map_or(Verdict::Keep, |x| x.1),
     }
+}
+
+/// C03 / C13 / C16: a negation discards a directory *as a tree* only if everything beneath it
+/// matches the negation too.  Judged on the entries that exist, with the negation's own compiled
+/// programs (their union is the whole pattern, however wax partitions it).  Where an alternative
+/// that reports `is_exhaustive() == Always` on its own matches the directory, the verdict is taken
+/// as it is: whether `Always` is sound is C09's question (open findings F-EXH-*).
+pub fn unsound_tree_verdict(entries: &[(String, bool)], layers: &[LayerRt]) -> Option<String> {
+    for l in layers {
+        if !matches!(l.layer, Layer::Not(_) | Layer::NotAny(_)) {
+            continue;
+        }
+        let matches = |rel: &str| {
+            l.exhaustive.as_ref().map_or(false, |r| r.is_match(rel)) || l.nonexhaustive.as_ref().map_or(false, |r| r.is_match(rel))
+        };
+        for (d, is_dir) in entries {
+            if !*is_dir || !l.exhaustive.as_ref().map_or(false, |r| r.is_match(d)) {
+                continue;
+            }
+            if l.always_alternatives.iter().chain(l.exhaustive_alternatives.iter()).any(|g| g.is_match(d.as_str())) {
+                continue;
+            }
+            for (e, _) in entries {
+                let beneath = if d.is_empty() { !e.is_empty() } else { e.starts_with(&format!("{}/", d)) };
+                if beneath && !matches(e) {
+                    return Some(format!(
+                        "the negation {:?} discards the directory {:?} as a tree although {:?} beneath it does not match the negation (and no alternative that is exhaustive on its own matches the directory)",
+                        l.layer, d, e
+                    ));
+                }
+            }
+        }
+    }
+    None
 }
 
 pub struct GlobRt {
@@ -605,7 +660,34 @@ pub fn gen_not_expr(t: &mut Tape, tree: &TreeSpec) -> Expr {
     let names = tree_names(tree);
     let paths: Vec<String> = tree.nodes.iter().map(|n| n.path.clone()).collect();
     let tree_end = Tok::Tree { lead: true, trail: false };
-    let e: Expr = match t.below(9) {
+    let e: Expr = match t.below(10) {
+        9 => {
+            // exhaustive only *sometimes*: a mixed alternation inside a concatenation,
+            // `p/{x/**,name}` or `**/{x/**,name}` with `p/name` an existing directory — the
+            // directory matches through the non-exhaustive branch and must not be discarded as a
+            // tree
+            let dirs: Vec<String> = tree.nodes.iter().filter(|n| n.kind == Kind::Dir && !n.path.contains('\\') && !n.path.contains(crate::fsmodel::RAW)).map(|n| n.path.clone()).collect();
+            if dirs.is_empty() {
+                vec![Tok::lit("a"), Tok::Sep, Tok::Alt(vec![vec![Tok::lit("b"), tree_end.clone()], vec![Tok::lit("c")]])]
+            }
+            else {
+                let d = t.pick(&dirs);
+                let (parent, name) = match d.rsplit_once('/') {
+                    Some((p, n)) => (p.to_string(), n.to_string()),
+                    None => (String::new(), d.clone()),
+                };
+                let mut e = if t.chance(100) || parent.is_empty() {
+                    vec![Tok::Tree { lead: false, trail: true }]
+                }
+                else {
+                    literal_prefix(&parent, true)
+                };
+                let ex = vec![Tok::lit(&t.pick(&names)), tree_end.clone()];
+                let ne = vec![Tok::lit(&name)];
+                e.push(if t.chance(128) { Tok::Alt(vec![ex, ne]) } else { Tok::Alt(vec![ne, ex]) });
+                e
+            }
+        },
         8 => {
             // an alternation nested as a whole branch of an alternation, mixing an exhaustive and a
             // non-exhaustive branch: `{x,{d/**,*.rs}}` (either order)
